@@ -58,6 +58,11 @@ def cases(tier, seed):
     bin_arrays += [[0.1] * 10, [0.1] * 10 + [0.0], [0.0] + [0.7] * 3]
     for chunk in space.chunks(bin_arrays, 3):
         yield dict(kind='binary', arrays=chunk, L=3 if tier == 'quick' else 4)
+    # rate arrays STORED IN SINGLE PRECISION (rates and cumulative sums exact in float32, so the intervals are the same)
+    f32_arrays = [[0.25, 0.25, 0.5], [0.5, 0.0, 0.5], [0.0, 1.0, 1.0], [0.25, 0.75], [0.125, 0.375, 0.5, 0.0], [2.0, 2.0]]
+    yield dict(kind='inject', arrays=f32_arrays, maxN=2, f32=True)
+    for a in f32_arrays:
+        yield dict(kind='binary', arrays=[a], L=2, f32=True)
     # MANY events on FEW bins: every array of length 1..3 over a 4-letter alphabet, N in {9, 17, 33, 100} draws cycling over
     # the whole draw alphabet (0, every cumulative boundary and its neighbours, midpoints, the top double)
     few = [list(a) for n in (1, 2, 3) for a in itertools.product([0.0, 0.3, 0.7, 1e3], repeat=n) if any(x > 0 for x in a)]
@@ -98,6 +103,9 @@ def setup(rates, test, n_obs, layout='C'):
         data = numpy.asfortranarray(data)          # same values, column-major memory layout
     elif layout == 'T':
         data = numpy.ascontiguousarray(data.T).T    # a transposed view
+    elif layout == 'f32':
+        data = data.astype(numpy.float32)           # single-precision storage (only used with rates that are exact in float32)
+        assert [float(x) for x in data.ravel()] == [float(x) for x in rates]
     fc = fixtures.gridded_forecast(data, reg, mags)
     counts = numpy.zeros((nc, nm), dtype=int)
     k = next(i for i, r in enumerate(rates) if r > 0)
@@ -197,13 +205,13 @@ def run_inject(case, failures, hsh):
         for N in range(0, maxN + 1):
             tuples = list(itertools.product(U, repeat=N))
             rn = numpy.array(tuples, dtype=float).reshape(len(tuples), N)
-            for test in tests + ((('CL', 'F'), ('CL', 'T')) if len(rates) == 4 else ()):
+            for test in (tuple((t, 'f32') for t in tests) if case.get('f32') else tests + ((('CL', 'F'), ('CL', 'T')) if len(rates) == 4 else ())):
                 layout = 'C'
                 if isinstance(test, tuple):
                     test, layout = test
                 fc, cat = setup(rates, test, N, layout)
                 rep = dict(kind='inject1', rates=rates, test=test, draws=None, layout=layout)
-                site = f'poisson_evaluations.{public(test).__name__}' + ('' if layout == 'C' else '[non-C-contiguous rates]')
+                site = f'poisson_evaluations.{public(test).__name__}' + ('' if layout == 'C' else '[float32 rates]' if layout == 'f32' else '[non-C-contiguous rates]')
                 try:
                     with Spy(pe) as spy:
                         res = public(test)(fc, cat, num_simulations=len(tuples), random_numbers=rn)
@@ -254,7 +262,7 @@ def run_inject1(case, failures, hsh):
     N = len(t)
     F = rs.exact_cdf(rates)
     fc, cat = setup(rates, test, N, case.get('layout', 'C'))
-    site = f'poisson_evaluations.{public(test).__name__}' + ('' if case.get('layout', 'C') == 'C' else '[non-C-contiguous rates]')
+    site = f'poisson_evaluations.{public(test).__name__}' + ('' if case.get('layout', 'C') == 'C' else '[float32 rates]' if case.get('layout') == 'f32' else '[non-C-contiguous rates]')
     cls = input_class(rates, t)
     try:
         with Spy(pe) as spy:
@@ -365,17 +373,18 @@ def run_binary(case, failures, hsh):
         for N in (1, 2):
             if N > npos:
                 continue
-            for test, mod, layout in (('bS', be, 'C'), ('bCL', be, 'C'), ('Br', br, 'C')) + ((('bCL', be, 'F'), ('Br', br, 'F')) if len(rates) == 4 else ()):
+            for test, mod, layout in ((('bS', be, 'f32'), ('bCL', be, 'f32'), ('Br', br, 'f32')) if case.get('f32') else
+                                      (('bS', be, 'C'), ('bCL', be, 'C'), ('Br', br, 'C')) + ((('bCL', be, 'F'), ('Br', br, 'F')) if len(rates) == 4 else ())):
                 n = len(rates)
                 nc, nm = (n, 1) if test == 'bS' else shape_for('CL', n)
                 reg, origins, mags = fixtures.grid_setup(nc, nm)
-                data_ = numpy.array(rates, dtype=float).reshape(nc, nm)
+                data_ = numpy.array(rates, dtype=(numpy.float32 if layout == 'f32' else float)).reshape(nc, nm)
                 fc = fixtures.gridded_forecast(numpy.asfortranarray(data_) if layout == 'F' else data_, reg, mags)
                 counts = numpy.zeros(nc * nm, dtype=int)
                 pos = [i for i, r in enumerate(rates) if r > 0][:N]
                 counts[pos] = 1
                 cat = fixtures.catalog(fixtures.events_from_counts(counts.reshape(nc, nm), origins, mags), region=reg)
-                site = f'{mod.__name__.split(".")[-1]}.{public(test).__name__}' + ('' if layout == 'C' else '[non-C-contiguous rates]')
+                site = f'{mod.__name__.split(".")[-1]}.{public(test).__name__}' + ('' if layout == 'C' else '[float32 rates]' if layout == 'f32' else '[non-C-contiguous rates]')
                 Lmax = case['L'] if len(U) <= 8 else (case['L'] - 1 if len(U) <= 14 else 1)
                 Ls = range(0, Lmax + 1)
                 for L in Ls:
@@ -421,7 +430,7 @@ def run_binary1(case, failures, hsh):
     n = len(rates)
     nc, nm = (n, 1) if test == 'bS' else shape_for('CL', n)
     reg, origins, mags = fixtures.grid_setup(nc, nm)
-    data_ = numpy.array(rates, dtype=float).reshape(nc, nm)
+    data_ = numpy.array(rates, dtype=(numpy.float32 if case.get('layout') == 'f32' else float)).reshape(nc, nm)
     fc = fixtures.gridded_forecast(numpy.asfortranarray(data_) if case.get('layout') == 'F' else data_, reg, mags)
     counts = numpy.zeros(nc * nm, dtype=int)
     counts[[i for i, r in enumerate(rates) if r > 0][:N]] = 1
@@ -429,7 +438,7 @@ def run_binary1(case, failures, hsh):
     mids = rs.midpoints(rates)
     script = list(head) + [mids[i % len(mids)] for i in range(2 * len(mids))]
     want, used, active = ref_rejection(script, rates, N)
-    site = f'{mod.__name__.split(".")[-1]}.{public(test).__name__}' + ('' if case.get('layout', 'C') == 'C' else '[non-C-contiguous rates]')
+    site = f'{mod.__name__.split(".")[-1]}.{public(test).__name__}' + ('' if case.get('layout', 'C') == 'C' else '[float32 rates]' if case.get('layout') == 'f32' else '[non-C-contiguous rates]')
     cls = ('zero-rate-bins' if any(r <= 0 for r in rates) else 'positive-rates')
     try:
         with env.scripted_random(env.Script(uniforms=script)), Spy(mod) as spy:
